@@ -126,7 +126,8 @@ impl Worker {
             {
                 match job {
                     Job::Task(task) => {
-                        let _ = task();
+                        // A panicking task must not take the worker down with it.
+                        let _ = std::panic::catch_unwind(std::panic::AssertUnwindSafe(task));
                     }
                     Job::Shutdown => break,
                 }
